@@ -63,7 +63,7 @@ def absorb(ctx, R, what, cases):
     n = ctx.notes.setdefault("runs", {})
     n[what] = {k: R.get(k) for k in ("behaviours", "steps", "daemons", "policies", "retries", "auth_queries", "refetches",
                                       "denials", "tls_upgrades", "traces", "trace_events", "drift_count", "wall_s")}
-    n[what]["unreplayable"] = len(R.get("unreplayable") or [])
+    n[what]["unreplayable"] = R.get("unreplayable_count", 0)
     for s in (R.get("samples") or [])[:3]:
         ctx.sample({what: s})
     for v in R.get("violations") or []:
@@ -73,7 +73,7 @@ def absorb(ctx, R, what, cases):
         ctx.notes.setdefault("foreign_auth_queries", []).extend(R["foreign_queries"][:5])
     for d in (R.get("drift") or [])[:10]:
         ctx.drift("%s: real nsqd and NsqdPolicy!Out disagree: %s" % (what, d))
-    if R.get("inconclusive"):
+    if R.get("inconclusive") and not ctx.violations:
         raise Inconclusive("%s: %s; e.g. %s" % (what, R["inconclusive"], (R.get("unreplayable") or [""])[0]))
 
 
@@ -154,7 +154,7 @@ def run(ctx):
                              1500 if quick else 5400)
     os.unlink(allp)
     absorb(ctx, R, "replay", cases)
-    if R["behaviours"] + len(R.get("unreplayable") or []) < total:
+    if R["behaviours"] + R["unreplayable_count"] < total and not ctx.violations:
         raise Inconclusive("only %d of %d behaviours were replayed" % (R["behaviours"], total))
     ntr = R["traces"]
 
